@@ -45,7 +45,7 @@ SCRIPT_VOCAB = ["SET", "SET", "GET", "GET", "MSET", "SETNX", "APPEND", "STRLEN",
 DIRECT_VOCAB = ksgen.STRING_VOCAB + ksgen.COLL_VOCAB
 EXEC_VOCAB = [n for n in DIRECT_VOCAB if n not in RANDOM]
 
-SELECT_VALID = [str(i) for i in range(16)] + ["+5", "007", "+0", "015", "00000000000000000000003"]
+SELECT_VALID = [str(i) for i in range(16)] + ["+5", "007", "+0", "015", "00000000000000000000003"] + ["0", "1", "14", "15"] * 3
 SELECT_INVALID = ["16", "17", "255", "256", "65536", "4294967296", "4294967297", "18446744073709551615", "18446744073709551616",
                   "99999999999999999999999", "-1", "-0", "", " 1", "1 ", "abc", "1.0", "0x1", "1e0", "+", "++1", "\xff", "1\x00", "٣"]
 
@@ -154,6 +154,10 @@ def op_text(op):
         return "c%d: %s [%s]" % (op["c"], "EVALSHA" if op["sha"] else "EVAL", " ; ".join(" ".join(t(a) for a in cmd) for cmd in op["cmds"]))
     if op["k"] == "pipe":
         return "c%d: pipelined { %s }" % (op["c"], " | ".join(" ".join(t(a) for a in r) for r in op["reqs"]))
+    if op["k"] == "timeout":
+        return "c%d: (its time-out fires: null array)" % op["c"]
+    if op["k"] == "close":
+        return "c%d: closes its socket (a new connection replaces it)" % op["c"]
     if op["k"] == "notwoken":
         return "check: c%d still blocked on %s in db %d, nothing delivered" % (op["c"], t(op["key"]), op["db"])
     return json.dumps(op)
@@ -195,6 +199,11 @@ class Sess:
             raise InternalError("drv_dbs does not answer `luaquirks`: %r" % lq)
         # conversion switches of the script path as C12's translator reads them off lua_engine.rs (Gen/Lua.lean)
         self.luaq = {kv.split("=")[0]: kv.split("=")[1] == "1" for kv in lq.split(" ")}
+        bc = self.model.ask("blockingcfg")
+        if not bc or "=" not in bc:
+            raise InternalError("drv_dbs does not answer `blockingcfg`: %r" % bc)
+        # WHEN blocked clients are served (C13's subject), as C13's translator and mine read it off the source (Gen/Blocking.lean, Gen/Dispatch.lean)
+        self.bcfg = {kv.split("=")[0]: kv.split("=")[1] == "1" for kv in bc.split(" ")}
         r = self.ctl.cmd("SCRIPT", "LOAD", WRAPPER)
         if r[0] != "b":
             raise InternalError("SCRIPT LOAD failed: %r" % (r,))
@@ -230,7 +239,7 @@ class Sess:
         """empty server, three new connections (database 0, no transaction), empty model"""
         for c in self.cl.values():
             c.close()
-        if not self.srv.alive() or getattr(self, "blocked", None):
+        if not self.srv.alive() or getattr(self, "blocked", None) or getattr(self, "ghosts", None):
             # a client left blocked by an aborted history stays in the server's registry (a closed blocked connection is
             # not noticed: C13's subject) and would swallow a later push: start from a clean server
             self.restart_server()
@@ -246,7 +255,10 @@ class Sess:
             self.ids[i] = r[1]
         if self.model.ask("reset") != "ok":
             raise InternalError("drv_dbs reset failed")
-        self.blocked = {}                 # conn -> (db, key)
+        self.blocked = {}                 # conn -> (db, [keys])
+        self.dead = set()                 # connections that hung up (never used again; replaced by a new id)
+        self.ghosts = {}                  # dead connections the server still has registered: conn -> (db, [keys])
+        self.ever = []                    # every (db, key) a connection ever waited on, in order
         self.multi = {i: None for i in self.cl}      # None or list of queued names
         self.multi_scripts = {i: False for i in self.cl}
         self.multi_ops = {i: [] for i in self.cl}    # the queued requests themselves
@@ -273,15 +285,28 @@ class Sess:
         rd, _, _ = _select.select([cli.s], [], [], 0)
         return bool(rd)
 
-    def wait_registered(self, c, db, key, limit=3.0):
-        """until connection c sits in the registry of (db, key) — or a reply arrived instead"""
+    def wait_registered(self, c, db, keys, limit=3.0):
+        """until connection c sits in the registry of (db, key) for every key — or a reply arrived instead"""
         t0 = time.monotonic()
         while True:
             reg, wq = self.registry(db)
-            if self.ids[c] in reg.get(key, []):
+            if all(self.ids[c] in reg.get(k, []) for k in keys):
                 return True
             if self.has_bytes(c) or time.monotonic() - t0 > limit:
                 return False
+
+    def wait_unregistered(self, cid, limit=3.0):
+        """until the server has dropped every registration of connection id `cid` (all 16 registries)"""
+        t0 = time.monotonic()
+        while True:
+            left = []
+            for d in range(16):
+                reg, wq = self.registry(d)
+                left += [(d, k) for k, ids in reg.items() if cid in ids]
+            if not left:
+                return []
+            if time.monotonic() - t0 > limit:
+                return left
 
     def loop_passes(self, n=3):
         l0 = self.ctl.cmd("VERIF", "LOOP")[1]
@@ -365,10 +390,20 @@ class Sess:
         if blocking and died is None:
             if code_t == ("noreply",):
                 args = [unhx(a) for a in op["args"]]
-                ok = self.wait_registered(c, self.sel[c], args[1]) if len(args) >= 3 else False
+                keys = []
+                for k in args[1:-1]:
+                    if k not in keys:
+                        keys.append(k)
+                # a time-out that is meant to fire may already have fired: no look at the registry then
+                ok = True if op.get("fires") else (self.wait_registered(c, self.sel[c], keys) if keys else False)
                 if ok:
                     impl = ("noreply",)
-                    self.blocked[c] = (self.sel[c], args[1])
+                    self.blocked[c] = (self.sel[c], keys)
+                    for k in keys:
+                        if (self.sel[c], k) not in self.ever:
+                            self.ever.append((self.sel[c], k))
+                    self.rep.count("block.%dkey%s%s" % (len(keys), ".db-boundary" if self.sel[c] in (0, 1, 14, 15) else "",
+                                                        ".reselected" if step.get("reselected") else ""))
                 else:
                     try:
                         impl = tree_of_reply(cli.read_reply(1.0))
@@ -379,7 +414,7 @@ class Sess:
                     impl = tree_of_reply(cli.read_reply(3.0))
                 except TimeoutError:
                     impl = ("noreply",)
-                    self.blocked[c] = (self.sel[c], b"?")
+                    self.blocked[c] = (self.sel[c], [b"?"])
                 except (Closed, ProtocolError, OSError) as e:
                     died = "closed:" + type(e).__name__
         if died:
@@ -392,6 +427,12 @@ class Sess:
             for item in served.split(" ;; "):
                 bc, fr = item.split(":", 1)
                 bc = int(bc)
+                if bc in self.dead:
+                    # served into the void (a hang-up the server has not noticed): nothing to read
+                    self.ghosts.pop(bc, None)
+                    delivered.append("%d:%s" % (bc, fr))
+                    self.rep.count("served.ghost")
+                    continue
                 try:
                     got = tree_of_reply(self.cl[bc].read_reply(3.0))
                 except (Closed, TimeoutError, ProtocolError, OSError) as e:
@@ -400,7 +441,26 @@ class Sess:
                 if got != parse_tree(fr):
                     agree = False
                 else:
+                    b = self.blocked.pop(bc, None)
+                    if b and fr.startswith("( a ( b "):
+                        kx = fr.split(" ")[4]
+                        ks = [hx(k) for k in b[1]]
+                        self.rep.count("served.via-key%d-of-%d" % (ks.index(kx) + 1 if kx in ks else 0, len(ks)))
+        # nobody else may have received anything: an element pushed in database j goes only to a client that was selected on j
+        # when it issued its blocking call
+        if self.blocked and died is None:
+            self.loop_passes(2)
+            for bc in sorted(self.blocked):
+                if self.has_bytes(bc):
+                    try:
+                        got = tree_of_reply(self.cl[bc].read_reply(1.0))
+                    except (Closed, TimeoutError, ProtocolError, OSError) as e:
+                        got = ("garbage:" + type(e).__name__,)
+                    delivered.append("%d:%s" % (bc, show_tree(got)))
+                    step["unexpected_delivery"] = {"conn": bc, "blocked_in_db": self.blocked[bc][0], "keys": [hx(k) for k in self.blocked[bc][1]],
+                                                   "frame": show_tree(got)}
                     self.blocked.pop(bc, None)
+                    agree = False
         step["delivered"] = " ;; ".join(delivered) if delivered else "."
         step["agree"] = agree
         step["dev"] = (not same_out(names, code_t, spec_t)) or same != "same" or served != spec_served
@@ -420,6 +480,66 @@ class Sess:
         self.sel[c] = int(sel)
         if died:
             step["died"] = died
+        return step
+
+    def fire_timeout(self, c):
+        """the (short) time-out of blocked connection c fires: null array on the wire, no registration left"""
+        op = {"k": "timeout", "c": c}
+        self.ops.append(op)
+        step = {"op": op, "text": op_text(op), "pre_sel": self.sel.get(c, 0), "in_multi": False, "queue": [], "name": "timeout",
+                "accesses": ".", "served": ".", "spec_served": ".", "same": True, "dev": False, "code": "", "spec": ""}
+        ans = self.model.ask("timeout %d" % c)
+        if ans is None or ans == "bad-op":
+            raise InternalError("drv_dbs timeout failed: %r" % ans)
+        step["code"] = step["spec"] = ans
+        step["line"] = "timeout %d" % c
+        try:
+            got = tree_of_reply(self.cl[c].read_reply(6.0))
+        except (Closed, TimeoutError, ProtocolError, OSError) as e:
+            got = ("nothing-delivered:" + type(e).__name__,)
+        step["impl"] = "%d:%s" % (c, show_tree(got))
+        left = self.wait_unregistered(self.ids[c], 1.0) if got == ("na",) else []
+        step["agree"] = ans == step["impl"] and not left
+        if left:
+            step["impl"] += " still registered on %s" % [(d, hx(k)) for d, k in left]
+        step["delivered"] = step["impl"]
+        self.blocked.pop(c, None)
+        self.rep.count("block.timeout-fired")
+        return step
+
+    def hangup(self, c):
+        """connection c closes its socket (possibly while blocked); a new connection takes its place under a new id"""
+        op = {"k": "close", "c": c}
+        self.ops.append(op)
+        step = {"op": op, "text": op_text(op), "pre_sel": self.sel.get(c, 0), "in_multi": False, "queue": [], "name": "close",
+                "accesses": ".", "served": ".", "spec_served": ".", "same": True, "dev": False, "delivered": "."}
+        ans = self.model.ask("close %d" % c)
+        if ans not in ("ghost", "gone"):
+            raise InternalError("drv_dbs close failed: %r" % ans)
+        step["code"] = step["spec"] = ans
+        step["line"] = "close %d" % c
+        was = self.blocked.pop(c, None)
+        self.cl[c].close()
+        self.dead.add(c)
+        cid = self.ids[c]
+        if ans == "gone":
+            left = self.wait_unregistered(cid, 3.0) if was else []
+            step["impl"] = "gone" if not left else "still registered on %s" % [(d, hx(k)) for d, k in left]
+        else:
+            # the server does not notice: the registrations must still be there
+            reg, wq = self.registry(was[0])
+            still = all(cid in reg.get(k, []) for k in was[1])
+            step["impl"] = "ghost" if still else "registrations dropped"
+            self.ghosts[c] = was
+        step["agree"] = step["impl"] == ans
+        self.rep.count("block.hangup-while-blocked" if was else "hangup")
+        # replacement
+        n = max(self.cl) + 1
+        self.cl[n] = self.srv.client()
+        r = self.cl[n].cmd("CLIENT", "ID")
+        self.ids[n] = r[1]
+        self.multi[n], self.multi_scripts[n], self.multi_ops[n], self.sel[n] = None, False, [], 0
+        step["new_conn"] = n
         return step
 
     def pipeline(self, c, op):
@@ -455,7 +575,8 @@ class Sess:
         self.ops.append(op)
         self.loop_passes(3)
         reg, wq = self.registry(db)
-        still = self.ids[c] in reg.get(key, [])
+        keys = self.blocked[c][1] if c in self.blocked and self.blocked[c][0] == db else [key]
+        still = all(self.ids[c] in reg.get(k, []) for k in keys)
         quiet = not self.has_bytes(c)
         step = {"op": op, "text": op_text(op), "impl": "registered=%s wake_queue=%d delivered=%s" % (still, wq, not quiet),
                 "code": "registered=True wake_queue=0 delivered=False", "spec": "registered=True wake_queue=0 delivered=False",
@@ -513,11 +634,19 @@ class Sess:
         si, sm = self.selections_impl(), self.selections_model()
         if si is not None:
             for c in sm:
-                if c not in self.blocked and si.get(c) != sm[c]:
+                if c not in self.blocked and c not in self.dead and si.get(c) != sm[c]:
                     problems.append({"kind": "selection", "conn": c, "impl": si.get(c), "code": sm[c]})
         for c in self.cl:
-            if c not in self.blocked and self.has_bytes(c):
+            if c not in self.blocked and c not in self.dead and self.has_bytes(c):
                 problems.append({"kind": "stray-bytes", "conn": c})
+        # no registration may be left behind by clients that are not waiting any more
+        waiting_ids = {self.ids[c] for c in list(self.blocked) + list(self.ghosts)}
+        for d in range(16):
+            reg, wq = self.registry(d)
+            for k, ids in reg.items():
+                stale = [i for i in ids if i not in waiting_ids]
+                if stale:
+                    problems.append({"kind": "stale-registration", "db": d, "key": hx(k), "conn_ids": stale})
         return problems
 
 
@@ -621,7 +750,7 @@ class HistGen:
     def unit(self):
         """the next operations (a list of closures over the session)"""
         r, s = self.r, self.s
-        free = [c for c in s.cl if c not in s.blocked]
+        free = [c for c in s.cl if c not in s.blocked and c not in s.dead]
         if not free:
             return None
         c = r.choice(free)
@@ -651,9 +780,9 @@ class HistGen:
             return [("req", op_script(c, r.chance(1, 2), self.script_cmds()))]
         if k < 51:
             return [("pipe", op_pipe(c, [[b"SELECT", self.select_arg(True)], self.ge.command(), [b"SELECT", self.select_arg()], self.ge.command()]))]
-        if k < 58 and self.profile != "noblock" and len(free) >= 2:
+        if k < 60 and self.profile != "noblock" and len(free) >= 2:
             return [("block", c)]
-        if k < 60:
+        if k < 62:
             return [("req", op_plain(c, r.choice([[b"EXEC"], [b"DISCARD"], [b"FLUSHDB"], [b"FLUSHALL"], [b"FLUSHDB", b"x"], [b"FLUSHALL", b"x"]])))]
         return [("req", op_plain(c, self.gd.command()))]
 
@@ -666,6 +795,7 @@ class Runner:
         self.known_seen = {}           # shape -> replay
         self.new_failures = []         # oracle failures outside the listed findings
         self.disagreements = []        # impl != code model, oracle holds as far as attributable
+        self.stale_registrations = []  # remembered, reported as a correspondence break when nothing else fails
         self.dev_steps = 0
 
     def record(self, step):
@@ -743,6 +873,21 @@ class Runner:
         s = self.s
         op = step["op"]
         out = {"isolation": False, "why": "reply differs from the code variant of the connection machine"}
+        ud = step.get("unexpected_delivery")
+        if ud:
+            used = {int(a.split(":")[1]) for a in step["accesses"].split(",")} if step.get("accesses", ".") != "." else {step["pre_sel"]}
+            if ud["blocked_in_db"] not in used:
+                out.update({"isolation": True, "delivered_across": {"pushed_in": sorted(used), "client_blocked_in": ud["blocked_in_db"]},
+                            "why": "%s ran with database(s) %s, and connection c%d — which issued its blocking pop on %s with database %d selected — "
+                                   "was handed %s" % (step["text"], sorted(used), ud["conn"], [unhx(k).decode("latin-1") for k in ud["keys"]],
+                                                      ud["blocked_in_db"], ud["frame"])})
+                di, dm = s.dump_impl_all(), s.dump_model_all()
+                out["dump_diff"] = {str(d): {"impl": di[d], "code": dm[d]} for d in range(16) if di[d] != dm[d]}
+                return out
+            out["why"] = "a blocked client was served in its own database although the code variant serves nobody (C13's subject): %s" % ud
+        if step.get("name") in ("timeout", "close"):
+            out["why"] = "time-out / hang-up of a blocked client: model %s, server %s (C13's subject)" % (step.get("code"), step.get("impl"))
+            return out
         if step.get("name") == "notwoken":
             out.update({"isolation": True, "why": "a push in ANOTHER database woke / unregistered / served a client blocked in database %d" % op["db"]})
             return out
@@ -804,71 +949,165 @@ class Runner:
                               % (step.get("served"), step.get("delivered")))
         return out
 
-    def blocking_scenario(self, r, a, gen):
-        """a blocks in its database; pushes to the same key name in OTHER databases (direct and EXEC path) must not wake it;
-        a push in ITS database by another connection (direct or EXEC path) must serve it"""
+    # ---- blocking sessions
+    BKEYS = [b"bq", b"bq2", b"l", b"bq", b"k1", b"miss"]       # a small pool, reused under every selection
+
+    def bdb(self, r, avoid=None):
+        """database indexes weighted to the boundaries"""
+        for _ in range(20):
+            d = r.choice([0, 1, 14, 15, 15, 14, 0, 1, r.below(16), r.below(16)])
+            if d != avoid:
+                return d
+        return (avoid + 1) % 16
+
+    def do(self, c, args):
+        return self.judge(self.s.request(c, op_plain(c, args)))
+
+    def pusher_to(self, r, b, db, push, path=None):
+        """connection b pushes `push` with database `db` selected, directly, from a transaction, or from a script;
+        returns False when the history has to stop"""
         s = self.s
-        key = r.choice([b"l", b"l", b"l", b"k1", b"miss", b"s"])
-        left = r.chance(1, 2)
-        cmd = [b"BLPOP" if left else b"BRPOP", key, r.choice([b"30", b"0", b"60"])]
-        if r.chance(1, 12):
-            cmd = r.choice([[cmd[0], key], [cmd[0], key, b"-1"], [cmd[0], key, b"abc"]])
-        st = s.request(a, op_plain(a, cmd))
-        if not self.judge(st):
-            return False
-        if a not in s.blocked:
-            return True
-        db = s.sel[a]
-        others = [c for c in s.cl if c != a and c not in s.blocked]
-        for rnd in range(r.range(1, 3)):
-            b = r.choice(others)
-            # a push elsewhere
-            if s.multi[b] is None and s.sel[b] == db:
-                if not self.judge(s.request(b, op_plain(b, [b"SELECT", str(r.choice([d for d in range(16) if d != db])).encode()]))):
-                    return False
-            if s.sel[b] != db or s.multi[b] is not None:
-                push = [r.choice([b"RPUSH", b"LPUSH"]), key, r.choice(ksgen.ELEMS)]
-                if s.multi[b] is None and r.chance(1, 2):
-                    seq = [[b"MULTI"], push, [b"EXEC"]]
-                elif s.multi[b] is None:
-                    seq = [push]
-                else:
-                    seq = [push, [b"EXEC"]]
-                for x in seq:
-                    if not self.judge(s.request(b, op_plain(b, x))):
-                        return False
-                if a in s.blocked and s.blocked[a][0] == db:
-                    if not self.judge(s.check_not_woken(a, db, key)):
-                        return False
-            if a not in s.blocked:
-                return True
-        # the serving push
-        b = r.choice(others)
-        seq = []
         if s.multi[b] is not None:
-            seq.append([r.choice([b"EXEC", b"DISCARD"])])
-        path = r.below(3)
-        push = [r.choice([b"RPUSH", b"LPUSH"]), key] + [r.choice(ksgen.ELEMS) for _ in range(r.range(1, 2))]
-        if path == 0:
-            seq += [[b"SELECT", str(db).encode()], push]
-        elif path == 1:
-            seq += [[b"SELECT", str(db).encode()], [b"MULTI"], push, [b"EXEC"]]
-        else:
-            seq += [[b"MULTI"], [b"SELECT", str(db).encode()], push, [b"EXEC"], [b"SELECT", str(db).encode()], push]
-        for x in seq:
-            if a not in s.blocked:
-                break
-            if not self.judge(s.request(b, op_plain(b, x))):
+            if not self.do(b, [r.choice([b"EXEC", b"DISCARD"])]):
                 return False
-        if a in s.blocked:
-            # the key holds another type in that database (the push was refused): make room and serve
-            for x in ([b"SELECT", str(db).encode()], [b"DEL", key], [b"RPUSH", key, b"v"]):
+        if s.sel[b] != db:
+            if not self.do(b, [b"SELECT", str(db).encode()]):
+                return False
+        path = r.below(8) if path is None else path
+        if path < 4:
+            self.rep.count("push.direct")
+            return self.do(b, push)
+        if path < 6:
+            self.rep.count("push.exec")
+            extra = [[b"LLEN", push[1]]] if r.chance(1, 2) else []
+            for x in [[b"MULTI"], push] + extra + [[b"EXEC"]]:
+                if not self.do(b, x):
+                    return False
+            return True
+        self.rep.count("push.script")
+        return self.judge(s.request(b, op_script(b, r.chance(1, 2), [push])))
+
+    def blocking_scenario(self, r, a, gen):
+        """connection a goes through 1-3 blocking calls, changing its selection in between and reusing key names: single and
+        multi-key BLPOP/BRPOP that really block, served through any of the keys (direct / EXEC / script pushes by the other
+        connections), timed out, or abandoned by closing the socket; while it waits, pushes to the same key names in OTHER
+        databases — preferably those where somebody waited before — must serve nobody; a second connection may wait on the same
+        key name in another database at the same time; afterwards every (db, key) anybody ever waited on is pushed to."""
+        s = self.s
+        rounds = r.range(1, 3)
+        for rnd in range(rounds):
+            if a in s.blocked or a in s.dead:
+                return True
+            others = [c for c in s.cl if c != a and c not in s.blocked and c not in s.dead]
+            if not others:
+                return True
+            resel = False
+            if rnd > 0 or r.chance(1, 2):
+                d = self.bdb(r, avoid=s.sel[a] if rnd > 0 else None)
+                if not self.do(a, [b"SELECT", str(d).encode()]):
+                    return False
+                resel = rnd > 0
+            nk = r.choice([1, 1, 2, 2, 2, 3])
+            keys = [r.choice(self.BKEYS) for _ in range(nk)]
+            # prefer key names this or another connection waited on before, under another selection
+            old = [k for (d, k) in s.ever if d != s.sel[a]]
+            if old and r.chance(2, 3):
+                keys[r.below(nk)] = r.choice(old)
+            mode = r.choice(["served"] * 9 + ["timeout", "close", "close"])
+            left = r.chance(1, 2)
+            name = b"BLPOP" if left else b"BRPOP"
+            if r.chance(1, 20):
+                if not self.do(a, r.choice([[name, keys[0]], [name] + keys + [b"-1"], [name] + keys + [b"abc"]])):
+                    return False
+                continue
+            op = op_plain(a, [name] + keys + [r.choice([b"0.05", b"0.05", b"0.1"]) if mode == "timeout" else r.choice([b"0", b"30", b"60"])])
+            if mode == "timeout":
+                op["fires"] = True
+            st = s.request(a, op)
+            st["reselected"] = resel
+            if not self.judge(st):
+                return False
+            if a not in s.blocked:
+                continue                      # answered at once (an element was there, or an error)
+            db = s.sel[a]
+            if resel:
+                self.rep.count("block.after-reselect")
+            if mode == "timeout":
+                if not self.judge(s.fire_timeout(a)):
+                    return False
+                continue
+            # a second waiter on the same key name under another selection
+            second = None
+            if len(others) >= 2 and r.chance(1, 3):
+                c2 = r.choice(others)
+                d2 = self.bdb(r, avoid=db)
+                if s.multi[c2] is not None and not self.do(c2, [b"DISCARD"]):
+                    return False
+                if not self.do(c2, [b"SELECT", str(d2).encode()]):
+                    return False
+                if not self.do(c2, [r.choice([b"BLPOP", b"BRPOP"]), r.choice(keys), b"0"]):
+                    return False
+                if c2 in s.blocked:
+                    second = c2
+                    self.rep.count("block.second-waiter-same-key-other-db")
+                others = [c for c in others if c not in s.blocked]
+            if not others:
+                return True
+            # pushes that must serve nobody: the same key names in other databases
+            for _ in range(r.range(0, 3)):
                 if a not in s.blocked:
                     break
-                if s.multi[b] is not None:
-                    if not self.judge(s.request(b, op_plain(b, [b"DISCARD"]))):
+                k = r.choice(keys)
+                cand = [d for (d, kk) in s.ever if kk == k and d != db and not (second and s.blocked.get(second, (None,))[0] == d)]
+                if cand and r.chance(3, 4):
+                    d = r.choice(cand)
+                    self.rep.count("push.to-ever-waited-(db,key)-while-waiting-elsewhere")
+                else:
+                    d = self.bdb(r, avoid=db)
+                    if second and s.blocked.get(second, (None,))[0] == d:
+                        continue
+                    self.rep.count("push.same-key-other-db")
+                if not self.pusher_to(r, r.choice(others), d, [r.choice([b"RPUSH", b"LPUSH"]), k, r.choice(ksgen.ELEMS)]):
+                    return False
+                if a in s.blocked and not self.judge(s.check_not_woken(a, db, k)):
+                    return False
+            if a not in s.blocked:
+                continue
+            if mode == "close" and (s.bcfg.get("noticeHangup") or len(keys) == 1):
+                st = s.hangup(a)
+                if not self.judge(st):
+                    return False
+                a = st["new_conn"]
+            # the serving push: to any of the keys, in the database where the call was issued
+            k = r.choice(keys)
+            push = [r.choice([b"RPUSH", b"LPUSH"]), k] + [r.choice(ksgen.ELEMS) for _ in range(r.range(1, 2))]
+            if not self.pusher_to(r, r.choice(others), db, push):
+                return False
+            for c in [x for x in list(s.blocked) if s.blocked[x][0] == db and k in s.blocked[x][1]]:
+                # the key holds another type there (the push was refused): make room and serve
+                b = r.choice(others)
+                for x in ([b"DEL", k], [b"RPUSH", k, b"v"]):
+                    if c not in s.blocked:
+                        break
+                    if not self.pusher_to(r, b, db, x, path=0):
                         return False
-                if not self.judge(s.request(b, op_plain(b, x))):
+            if second is not None and second in s.blocked:
+                d2, k2 = s.blocked[second]
+                b = r.choice([c for c in others if c != second] or others)
+                for x in ([b"DEL", k2[0]], [b"RPUSH", k2[0], b"w"]):
+                    if second not in s.blocked:
+                        break
+                    if not self.pusher_to(r, b, d2, x, path=0):
+                        return False
+        # nobody waits any more: every (db, key) a connection ever waited on is pushed to — nobody may be served, the
+        # elements stay where they were pushed
+        others = [c for c in s.cl if c not in s.blocked and c not in s.dead]
+        if others and not s.blocked:
+            todo = list(s.ever)
+            r.shuffle(todo)
+            for d, k in todo[:6]:
+                self.rep.count("push.to-ever-waited-(db,key)-afterwards")
+                if not self.pusher_to(r, r.choice(others), d, [b"RPUSH", k, b"after"], path=r.choice([0, 0, 4])):
                     return False
         return True
 
@@ -914,6 +1153,15 @@ class Runner:
         self.rep.evaluations += 17
         self.rep.traces_validated += 1
         probs = s.final_checks()
+        stale = [p for p in probs if p["kind"] == "stale-registration"]
+        if stale:
+            # a registration without a waiting client is C13's subject (registry <-> blocked clients); here it is remembered (it is
+            # the precursor of a delivery across databases) and the server is restarted so that it cannot leak into the next history
+            self.stale_registrations.append({"family": FAMILY, "ops": list(s.ops), "problems": stale,
+                                             "why": "registrations left behind by clients that are not waiting: %s" % stale[:3]})
+            self.rep.count("stale-registration-after-history")
+            s.ghosts["stale"] = stale
+            probs = [p for p in probs if p["kind"] != "stale-registration"]
         if probs:
             used_dbs = set()
             for st in s.steps:
@@ -932,7 +1180,7 @@ class Runner:
         s.fresh()
         for op in ops:
             if op["k"] in ("plain", "script"):
-                if op["c"] in s.blocked:
+                if op["c"] in s.blocked or op["c"] in s.dead or op["c"] not in s.cl:
                     continue
                 if not self.judge(s.request(op["c"], op)):
                     return s.steps
@@ -944,6 +1192,12 @@ class Runner:
                     return s.steps
             elif op["k"] == "notwoken":
                 if op["c"] in s.blocked and not self.judge(s.check_not_woken(op["c"], op["db"], unhx(op["key"]))):
+                    return s.steps
+            elif op["k"] == "timeout":
+                if op["c"] in s.blocked and not self.judge(s.fire_timeout(op["c"])):
+                    return s.steps
+            elif op["k"] == "close":
+                if op["c"] in s.cl and op["c"] not in s.dead and not self.judge(s.hangup(op["c"])):
                     return s.steps
         self.finish_history()
         return s.steps
@@ -1020,6 +1274,7 @@ def main(tier, seed):
     sess = Sess(rep, "c18", force_switches=os.environ.get("C18_FORCE_SWITCHES"))   # e.g. "evalshaDb0=0": sanity-testing only
     rep.extra["tree_switches"] = sess.switches
     rep.extra["lua_conversion_switches"] = sess.luaq
+    rep.extra["blocking_config"] = sess.bcfg
     run = Runner(rep, sess, findings)
     r = Rng(seed)
     t_start = time.time()
@@ -1081,6 +1336,12 @@ def main(tier, seed):
             rep.violation("correspondence Ferrous.Dbs.exec (code variant) vs server broke (%d disagreements) although no database other than the selected one was touched"
                           % len(run.disagreements), {"replay": det, "correspondence": "Ferrous.Dbs.exec vs ferrous over TCP",
                                                      "more": [d.get("why") for d in run.disagreements[1:6]]}, no_input=True)
+        if not rep.violations and run.stale_registrations:
+            det = min(run.stale_registrations, key=lambda d: len(d["ops"]))
+            det = dict(det)
+            det["ops_text"] = [op_text(o) for o in det["ops"]]
+            rep.violation("blocking registry out of step with the blocked clients (%d histories): %s" % (len(run.stale_registrations), det["why"][:200]),
+                          {"replay": det, "correspondence": "registry of Ferrous.Dbs.exec vs VERIF BLOCKED"}, no_input=True)
         rep.extra["model_disagreements"] = len(run.disagreements)
         rep.extra["oracle_failures"] = len(run.new_failures)
         rep.extra["requests_deviating_from_spec"] = run.dev_steps
